@@ -4,6 +4,7 @@ package props
 
 import (
 	"bytes"
+	"math"
 	"strconv"
 	"strings"
 
@@ -33,6 +34,7 @@ type Opts struct {
 	SkipTags    []string `json:"skip_tags,omitempty"` // keys for which the skip-tag function answers true
 	GoEmpty     bool     `json:"go_empty,omitempty"`
 	CheckValid  bool     `json:"check_valid,omitempty"`
+	ViaToggle   bool     `json:"via_toggle,omitempty"` // the boolean switches are brought to their values through the documented argument-less forms
 }
 
 func defaultOpts() Opts { return Opts{AttrPrefix: "-", KeyPrefix: "#"} }
@@ -79,25 +81,82 @@ func bystanders() {
 	x2j.XmlValuesForPath([]byte(`<a><b>1</b></a>`), "a.b")
 	x2jw.DocToMap(`<a x="1">t</a>`, true)
 	x2jw.DocToJson(`<a>1</a>`)
+	// ... and calls that FAIL: an error path must leave the package state alone as well
+	j2x.JsonToXml([]byte(`{"a":`))
+	j2x.JsonToXmlWriter([]byte(`{"a":1,}`), &bytes.Buffer{})
+	j2x.JsonUpdateValsForPath([]byte(`{"a"`), "b:3", "a.b")
+	x2j.XmlToJson([]byte(`<a><b></a>`))
+	x2j.XmlValuesForPath([]byte(`<a`), "a.b")
+	x2jw.DocToMap(`<a x=1>`, true)
+	x2jw.DocToJson(`</a>`)
+	mxj.NewMapXml([]byte(`<a><b>1</a>`), true)
+	mxj.NewMapXmlSeq([]byte(`<a><!-- c`))
+	mxj.NewMapJson([]byte(`{"a":1e999}`))
+	mxj.BeautifyXml([]byte(`<a><b></a>`), "", " ")
+	(mxj.Map{"r": map[string]interface{}{"-a": []interface{}{1}}}).Xml()
+	(mxj.Map{"f": math.Inf(1)}).Json()
+	byMap.UpdateValuesForPath("k:v:nosuchtype", "n.l")
+	byMap.NewMap("a:b:c")
+	byMap.ValuesForPath("n.l[x]")
 }
 
 func (o Opts) apply() {
+	if o.ViaToggle {
+		// "no argument toggles the flag": set the opposite, then toggle. DisableTrimWhiteSpace is the documented
+		// exception: without an argument it DISABLES trimming, so it is called on top of the explicit form.
+		mxj.CoerceKeysToLower(!o.Lower)
+		mxj.CoerceKeysToLower()
+		mxj.CoerceKeysToSnakeCase(!o.Snake)
+		mxj.CoerceKeysToSnakeCase()
+		mxj.DecodeSimpleValuesAsMap(!o.SimpleAsMap)
+		mxj.DecodeSimpleValuesAsMap()
+		mxj.IncludeTagSeqNum(!o.SeqNum)
+		mxj.IncludeTagSeqNum()
+		mxj.CastValuesToInt(!o.CastInt)
+		mxj.CastValuesToInt()
+		mxj.CastValuesToFloat(o.NoCastFloat)
+		mxj.CastValuesToFloat()
+		mxj.CastValuesToBool(o.NoCastBool)
+		mxj.CastValuesToBool()
+		mxj.CastNanInf(!o.CastNanInf)
+		mxj.CastNanInf()
+		if o.KeepSpaces {
+			mxj.DisableTrimWhiteSpace(true)
+			mxj.DisableTrimWhiteSpace()
+		}
+	}
+	o.applyExplicit(o.ViaToggle)
+}
+
+func (o Opts) applyExplicit(skipToggled bool) {
 	mxj.SetAttrPrefix(o.AttrPrefix)
 	mxj.SetGlobalKeyMapPrefix(o.KeyPrefix)
-	mxj.CoerceKeysToLower(o.Lower)
-	mxj.CoerceKeysToSnakeCase(o.Snake)
-	mxj.DecodeSimpleValuesAsMap(o.SimpleAsMap)
-	mxj.DisableTrimWhiteSpace(o.KeepSpaces)
-	mxj.IncludeTagSeqNum(o.SeqNum)
+	if !skipToggled {
+		mxj.CoerceKeysToLower(o.Lower)
+	}
+	if !skipToggled {
+		mxj.CoerceKeysToSnakeCase(o.Snake)
+	}
+	if !skipToggled {
+		mxj.DecodeSimpleValuesAsMap(o.SimpleAsMap)
+	}
+	if !skipToggled || !o.KeepSpaces {
+		mxj.DisableTrimWhiteSpace(o.KeepSpaces)
+	}
+	if !skipToggled {
+		mxj.IncludeTagSeqNum(o.SeqNum)
+	}
 	mxj.XMLEscapeChars(false)
 	mxj.XMLEscapeCharsDecoder(o.DecEscape)
 	if o.EncEscape {
 		mxj.XMLEscapeChars(true)
 	}
-	mxj.CastValuesToInt(o.CastInt)
-	mxj.CastValuesToFloat(!o.NoCastFloat)
-	mxj.CastValuesToBool(!o.NoCastBool)
-	mxj.CastNanInf(o.CastNanInf)
+	if !skipToggled {
+		mxj.CastValuesToInt(o.CastInt)
+		mxj.CastValuesToFloat(!o.NoCastFloat)
+		mxj.CastValuesToBool(!o.NoCastBool)
+		mxj.CastNanInf(o.CastNanInf)
+	}
 	if len(o.SkipTags) > 0 {
 		tags := append([]string(nil), o.SkipTags...)
 		mxj.SetCheckTagToSkipFunc(func(k string) bool {
@@ -214,6 +273,7 @@ func genDecoderOpts(t *rapid.T, withCast bool) Opts {
 	if o.KeyPrefix == o.AttrPrefix { // the property requires them to be distinct
 		o.KeyPrefix = "#"
 	}
+	o.ViaToggle = rapid.IntRange(0, 3).Draw(t, "viatoggle") == 0
 	if withCast {
 		o.Cast = rapid.Bool().Draw(t, "cast")
 		o.CastInt = rapid.Bool().Draw(t, "castint")
